@@ -157,13 +157,19 @@ ALIAS_TOKEN = re.compile(r"<(!?)([^<>]+)>")
 
 
 def render_alias(alias, args, negate=False):
-    """alias text -> call text; args: {param: source text}; `<!word>` is the negation marker"""
-    def sub(m):
+    """alias text -> call text; args: {param: source text}; `<!word>` is the negation marker.
+    Only the alias' own text is whitespace-normalised, never the argument texts."""
+    out = []
+    pos = 0
+    for m in ALIAS_TOKEN.finditer(alias):
+        out.append(re.sub(r"\s+", " ", alias[pos:m.start()]))
         if m.group(1) == "!":
-            return m.group(2) if negate else ""
-        return args[m.group(2)]
-    s = ALIAS_TOKEN.sub(sub, alias)
-    return re.sub(r"  +", " ", s).strip()
+            out.append(m.group(2) if negate else "")
+        else:
+            out.append(args[m.group(2)])
+        pos = m.end()
+    out.append(re.sub(r"\s+", " ", alias[pos:]))
+    return "".join(out).strip()
 
 
 def alias_has_negation(alias):
